@@ -206,8 +206,10 @@ Variable O : oracles.
 Definition K_params : str := [zero] ++ L "params".
 Definition K_sel : str := [zero] ++ L "sel".
 
+(* the parameter map as the handler of the harness renders it: sorted by name *)
 Definition of_params_log (ps : list (str * str)) : str :=
-  join [semi] (map (fun kv => fst kv ++ L "=" ++ snd kv) ps).
+  join [semi] (map (fun k => k ++ L "=" ++ match assoc k ps with Some v => v | None => [] end)
+                   (sort_strs (map fst ps))).
 
 (* container.go:187 writeServiceError + response.go WriteErrorString *)
 Definition write_service_error (e : rerr) (s : rstate) : res :=
